@@ -193,7 +193,16 @@ def gen_wrap(facts):
             'def wrapProbeSwitch : List String := ' + lean_strs(b)]
 
 
-GENERATORS = [('escape', gen_escape), ('names', gen_names), ('wrap', gen_wrap)]
+def gen_repeat(facts):
+    from chameleon import tal
+    fn = tal.RepeatItem.__dict__['Roman'].function
+    table = list(fn.__defaults__[0])
+    facts['roman_table'] = table
+    return ['/-- default `rnvalues` of RepeatItem.Roman -/',
+            'def romanTable : List (Nat × String) := [%s]' % ', '.join('(%d, %s)' % (v, lean_str(r)) for v, r in table)]
+
+
+GENERATORS = [('escape', gen_escape), ('names', gen_names), ('wrap', gen_wrap), ('repeat', gen_repeat)]
 
 
 def gen_tables(facts):
